@@ -218,7 +218,11 @@ def gen_hourly(rng: random.Random):
     baseline = rng.random() < 0.6 and style != "temp_only"
     return dict(kind="hourly", tz=tz, start=start.isoformat(), n_days=n_days, style=style, baseline=baseline,
                 electric=rng.random() < 0.6, k=rng.choice([70, 71, 72, 73, 74, 75]), at_start=rng.random() < 0.5,
-                month_pick=rng.randrange(1, 9))
+                month_pick=rng.randrange(1, 9),
+                # optional irradiance column (solar sites): absent / complete / a block of missing hours at a month edge
+                # (72 of 720 hours is exactly the 90 % line; 96 = four days is clearly under it, 48 clearly over)
+                ghi=rng.choice([None, None, "complete", "gap", "gap", "gap"]), ghi_k=rng.choice([48, 70, 71, 72, 73, 74, 75, 96]),
+                ghi_month_pick=rng.randrange(1, 9))
 
 
 def build_hourly(case):
@@ -249,11 +253,20 @@ def build_hourly(case):
         obs.iloc[np.arange(7, len(idx) - 7, step)] = np.nan
     cls = HourlyBaselineData if case["baseline"] else HourlyReportingData
     CAPTURED.clear()
+    extra = []
+    case["_ghi_present"] = None
+    if case.get("ghi"):
+        ghi = pd.Series(np.maximum(0.0, 600.0 * np.sin((np.arange(len(idx)) % 24 - 6) / 12 * np.pi)), index=idx, name="ghi")
+        if case["ghi"] == "gap" and firsts:
+            j0 = firsts[case["ghi_month_pick"] % len(firsts)]
+            ghi.iloc[j0:j0 + case["ghi_k"]] = np.nan
+        extra = [ghi]
+        case["_ghi_present"] = ghi.notna().values
     if case["style"] == "temp_only":
         obs[:] = np.nan
-        data = quiet(cls, temp.to_frame(), is_electricity_data=case["electric"])
+        data = quiet(cls, pd.concat([temp] + extra, axis=1), is_electricity_data=case["electric"])
     else:
-        data = quiet(cls, pd.concat([obs, temp], axis=1), is_electricity_data=case["electric"])
+        data = quiet(cls, pd.concat([obs, temp] + extra, axis=1), is_electricity_data=case["electric"])
     return data, idx, obs, temp
 
 
@@ -290,6 +303,16 @@ def expected_hourly(case, idx, obs, temp):
         exp.add(P + "missing_monthly_temperature_data")
     if base and any(10 * m[2] < 9 * m[0] for m in months.values()):
         exp.add(P + "missing_monthly_meter_data")
+    gp = case.get("_ghi_present")
+    if gp is not None:
+        # irradiance, when supplied, is held to the same monthly 90 % line — for baseline AND reporting data
+        gm = {}
+        for t, g in zip(idx, gp):
+            m = gm.setdefault(t.month, [0, 0])
+            m[0] += 1
+            m[1] += int(g)
+        if any(10 * m[1] < 9 * m[0] for m in gm.values()):
+            exp.add(P + "missing_monthly_ghi_data")
     return exp, dict(n_days_total=n_total, valid_both=hours(both), valid_meter=hours(op), valid_temp=hours(tp))
 
 
@@ -370,6 +393,12 @@ def run(ctx):
     lines, metas = [], []
     for case in ctx.get("corpus", []):
         one_case(case, res, sigs, lines, metas)
+    # directed, every run: the irradiance criterion on both data classes, just on and just under the 90 % line
+    for baseline in (True, False):
+        for ghi_k in (72, 73):
+            case = gen_hourly(rng)
+            case.update(style="perfect", baseline=baseline, ghi="gap", ghi_k=ghi_k)
+            one_case(case, res, sigs, lines, metas)
     n = int((44 if not thorough else 700) * scale)
     for i in range(n):
         case = gen_hourly(rng) if i % 11 == 10 else (gen_billing(rng) if i % 11 in (4, 8) else gen_daily(rng))
